@@ -10,7 +10,7 @@ def run():
     wd = workdir("setup")
     bad = []
     for tla in sorted(glob.glob(os.path.join(SPEC, "*.tla"))):
-        r = subprocess.run(["tla-sany", tla], cwd=wd, stdout=subprocess.PIPE, stderr=subprocess.STDOUT, text=True)
+        r = subprocess.run(["tla-sany", os.path.basename(tla)], cwd=SPEC, stdout=subprocess.PIPE, stderr=subprocess.STDOUT, text=True)
         if r.returncode != 0 or "Semantic errors" in r.stdout or "*** Errors" in r.stdout or "Parse Error" in r.stdout:
             bad.append(os.path.basename(tla))
             log(r.stdout[-1500:])
